@@ -148,6 +148,12 @@ def gen_cases(ctx):
         cases.append(dict(c07.gen_tree_case(rng, 1000 + i), kind="pkgtree"))
     for i in range(24 if ctx.tier == "quick" else 200):
         cases.append(gen_recleak_case(rng, i))
+    # the built-in template must honour per-mock template-data for mocks sharing a file, in either order
+    for j, (order, vals, rootv, where) in enumerate((
+            (["Alpha", "Beta"], {"Alpha": True, "Beta": None}, None, "iface"), (["Alpha", "Beta"], {"Alpha": None, "Beta": True}, None, "iface"),
+            (["Alpha", "Beta", "Gamma"], {"Alpha": True, "Beta": False, "Gamma": None}, None, "cfg"), (["Alpha", "Beta", "Gamma"], {"Alpha": False, "Beta": True, "Gamma": None}, True, "iface"),
+            (["Alpha", "Beta", "Gamma"], {"Alpha": None, "Beta": False, "Gamma": True}, True, "cfg"))):
+        cases.append({"kind": "builtin", "i": 6000 + j, "order": order, "vals": vals, "root": rootv, "where": where})
     # fixed witnesses: recursive package nested under a recursive package, sibling whose name merely extends it, with and without root-level data
     for j, (root_td, nested, listed) in enumerate(((None, False, False), ({"kR": "vR"}, True, False), ({"kR": "vR"}, False, True), (None, True, True))):
         def td(tag):
@@ -610,8 +616,69 @@ def eval_recleak(ctx, case):
     return Verdict.held({"observed": seen}, tags=tags)
 
 
+BUILTIN_TEST = """package p
+
+import "testing"
+
+// each mock is used by the calling convention its own effective unroll-variadic value implies
+func TestUnrolled(t *testing.T) {
+	{UNROLLED}
+}
+
+func TestRolled(t *testing.T) {
+	{ROLLED}
+}
+"""
+
+
+def eval_builtin(ctx, case):
+    """per-mock template-data as seen by the *built-in* testify template: several mocks in one file, unroll-variadic set on some of them
+    at interface / configs-entry level; every mock must behave by its own effective value whatever was rendered before it"""
+    order = case["order"]          # interface names in source declaration order
+    vals = case["vals"]            # name -> True / False / None (unset)
+    src = "package p\n\n" + "".join("type %s interface{ Trace(span string, ids ...int) int }\n\n" % n for n in order)
+    ifs = {}
+    for n in order:
+        v = vals[n]
+        if v is None:
+            ifs[n] = {}
+        elif case["where"] == "iface":
+            ifs[n] = {"config": {"template-data": {"unroll-variadic": v}}}
+        else:
+            ifs[n] = {"configs": [{"template-data": {"unroll-variadic": v}}]}
+    cfg = {"template": "testify", "filename": "mocks_test.go", "packages": {MOD + "/p": {"interfaces": ifs}}}
+    if case.get("root") is not None:
+        cfg["template-data"] = {"unroll-variadic": case["root"]}
+    unrolled, rolled = [], []
+    for n in order:
+        eff = vals[n] if vals[n] is not None else bool(case.get("root"))
+        if eff:
+            unrolled.append("{ m := NewMock%s(t); m.EXPECT().Trace(\"s\", 1, 2).Return(7); if m.Trace(\"s\", 1, 2) != 7 { t.Fatal(\"%s\") } }" % (n, n))
+        else:
+            rolled.append("{ m := NewMock%s(t); m.EXPECT().Trace(\"s\", []int{1, 2}).Return(7); if m.Trace(\"s\", 1, 2) != 7 { t.Fatal(\"%s\") } }" % (n, n))
+    files = {"p/p.go": src, "p/use_test.go": BUILTIN_TEST.replace("{UNROLLED}", "\n\t".join(unrolled) or "_ = t").replace("{ROLLED}", "\n\t".join(rolled) or "_ = t"),
+             ".mockery.yml": json.dumps(cfg)}
+    root = core.scratch_module(ctx, files)
+    r = core.run_mockery(ctx, root, [], timeout=300)
+    tags = ["param=template-data@built-in-template", "where=" + case["where"]]
+    if r.timed_out:
+        return Verdict.inconclusive("watchdog")
+    if r.panicked or r.exit != 0:
+        return Verdict.violated("valid configuration, mockery exited %s" % r.exit, dict(r.brief(), config=cfg), tags)
+    t = core.go_cmd(["test", "-count=1", "./p/"], root, timeout=900)
+    if t.timed_out:
+        return Verdict.inconclusive("watchdog go test")
+    obs = {"order": order, "values": vals, "root": case.get("root"), "go_test_exit": t.exit}
+    if t.exit != 0:
+        return Verdict.violated("mocks sharing one file do not each follow their own effective unroll-variadic (order %s, values %s, top level %s): %s" % (
+            order, vals, case.get("root"), (t.out + t.err)[-600:]), dict(obs, config=cfg), tags)
+    return Verdict.held(obs, tags=tags)
+
+
 def eval_case(ctx, case):
     k = case["kind"]
+    if k == "builtin":
+        return eval_builtin(ctx, case)
     if k == "recleak":
         return eval_recleak(ctx, case)
     if k == "levels":
